@@ -25,7 +25,9 @@ def strategy():
         return {'rlen': draw(st.integers(12, 40)), 'clip5': draw(st.sampled_from([0, 0, 0, 1, 2, 3, 4, 5, 6])),
                 'clip3': draw(st.sampled_from([0, 0, 0, 1, 3])),
                 'r2': draw(st.sampled_from(['none', 'mapped', 'mapped', 'unmapped'])),
-                'gap': draw(st.integers(0, 30)), 'r2len': draw(st.integers(10, 30))}
+                'gap': draw(st.integers(0, 30)), 'r2len': draw(st.integers(10, 30)),
+                # an insertion or deletion inside the read (away from the cut): reference and query length then differ
+                'indel': draw(st.sampled_from([None, None, None, ['I', 1, 9], ['I', 2, 12], ['D', 1, 10], ['D', 3, 11]]))}
 
     @st.composite
     def case(draw):
@@ -78,6 +80,17 @@ def forward_reads(case, cp):
     c3 = min(c3, rlen - c5 - 5)
     m = rlen - c5 - c3
     cigar = ('%dS' % c5 if c5 else '') + '%dM' % m + ('%dS' % c3 if c3 else '')
+    ind = cp.get('indel')
+    if ind:
+        kind, k, off = ind
+        if c5 + 3 <= off <= rlen - c3 - 3 - k and a0 + rlen + k + 2 < len(ref):
+            if kind == 'I':
+                seq = seq[:off] + ['A'] * k + seq[off:rlen - k]
+                m1, m2 = off - c5, rlen - c3 - off - k
+            else:
+                seq = seq[:off] + list(ref[a0 + off + k:a0 + off + k + (rlen - off)])
+                m1, m2 = off - c5, rlen - c3 - off
+            cigar = ('%dS' % c5 if c5 else '') + '%dM%d%s%dM' % (m1, k, kind, m2) + ('%dS' % c3 if c3 else '')
     r1 = {'pos': a0 + c5, 'cigar': cigar, 'seq': ''.join(seq), 'reverse': False}
     r2 = None
     if cp['r2'] != 'none':
